@@ -25,6 +25,7 @@ def errName : Mono.Err → String
   | .sortFailed => "sortFailed"
   | .emptyArgmin => "emptyArgmin"
   | .noSeds => "noSeds"
+  | .fileExists => "fileExists"
 
 /-- `window {ws} wmin wmax` → `jlo jhi` (ws as read with order='nu') -/
 def opWindow : Rd String := do
@@ -106,6 +107,21 @@ def opMonoRun : Rd String := do
     pure (" ".intercalate (["ok", toString res.files.length] ++ res.files.map one ++
       [toString tab.length] ++ tab))
 
+/-- `monorunin overwrite {existing indices} <arguments of monorun>` → as `monorun`, or `raise fileExists` -/
+def opMonoRunIn : Rd String := do
+  let ow ← nat
+  let existing ← listOf nat
+  let ws ← listOf rat
+  let aps ← listOf rat
+  let seds ← listOf readSedIn
+  let ref ← listOf tok
+  let wmin ← readEnd
+  let wmax ← readEnd
+  let maxRam ← rat
+  match monoRunIn (ow = 1) existing stripS u30 ws aps seds ref wmin wmax maxRam with
+  | .error e => pure s!"raise {errName e}"
+  | .ok res => pure s!"ok {showNats (res.files.map (·.index))}"
+
 /-- `nearest {ws} w0` → `idx margin` (margin = gap between the smallest and the second smallest
     distance, relative to the smallest spacing scale; 0 means a tie) or `raise <err>` -/
 def opNearest : Rd String := do
@@ -131,6 +147,7 @@ def handleC16 (op : String) : Option (Rd String) :=
   | "chunks" => some C16.opChunks
   | "monofiles" => some C16.opMonoFiles
   | "monorun" => some C16.opMonoRun
+  | "monorunin" => some C16.opMonoRunIn
   | "nearest" => some C16.opNearest
   | _ => none
 
